@@ -748,10 +748,19 @@ fn dump_sigs<'tcx>(tcx: TyCtxt<'tcx>, out: &mut String) {
             out.push_str(",\n");
         }
         first = false;
+        // generic parameter names in substitution order (parent generics first)
+        let mut gnames: Vec<String> = Vec::new();
+        {
+            let g = tcx.generics_of(did);
+            for i in 0..g.count() {
+                gnames.push(esc(&g.param_at(i, tcx).name.to_string()));
+            }
+        }
         let _ = write!(
             out,
-            "{{\"path\":{},\"inputs\":[{}],\"output\":{},\"unsafe\":{},\"exported\":{},\"reachable\":{},\"has_body\":{}}}",
+            "{{\"path\":{},\"generics\":[{}],\"inputs\":[{}],\"output\":{},\"unsafe\":{},\"exported\":{},\"reachable\":{},\"has_body\":{}}}",
             esc(&tcx.def_path_str(did)),
+            gnames.join(","),
             ins.join(","),
             esc(&sig.output().to_string()),
             sig.safety().is_unsafe(),
